@@ -23,7 +23,8 @@ regenerated  : translate/t_c14_cache.py -> gen/G_CallCache.v: the cache key expr
                (C14_source_ttl_verdict: theorem for dated sources, refutation for the unchanged one).
 correspondence: adaptive random + directed histories on 2-3 REAL Falcon apps (make_wsgi_app) sharing a key, capacities
                0..3, token TTL 0 / 10 s, one logical clock substituted for `time` in _state_token and _app_stream
-               (the hook the property names), three stream methods, five identities (incl. the pair whose cache
+               (the hook the property names), four stream methods (one without call state, one whose call state is a
+               falsy-but-not-None object), five identities (incl. the pair whose cache
                identities collide).  Every response is decoded (tokens are opened: nonces differ) and compared with
                M_CallCache.run_case; the final cache sizes are compared too.
 oracle       : independent of the model: every continuation request is also sent, at the same logical instant, to a
@@ -174,8 +175,8 @@ class World:
             self.cids[cid] = len(self.cids)
         ty, payload = 0, 0
         if csb:
-            assert cst == "ExCall"
-            ty, payload = 1, self.S.ExCall.deserialize_from_bytes(csb, IpcValidation.FULL).label
+            ty = self.S.CALL_TYPES[cst]
+            payload = getattr(self.S, cst).deserialize_from_bytes(csb, IpcValidation.FULL).label
         return {"tok": tok, "cid": self.cids[cid], "aad": self.aad_tail(ident), "created": created, "ty": ty, "payload": payload, "ident": ident}
 
     @staticmethod
@@ -374,8 +375,12 @@ class Driver:
             elif served and ref[0] == 5 and ref[1] == 11:
                 ctx.violation(KEYS["type"], "a cache hit serves a stream at a method that does not declare its call-state type; "
                               "a worker without the entry answers 400", replay)
+            elif served and ref[0] in (3, 4):
+                ctx.violation("hit-and-miss-bind-different-call-state", "the same valid continuation is served by both, but the worker holding a cache "
+                              "entry and the cache-less worker hand the method a different call state / produce different output "
+                              "(what the call token carries is not what /init put into the cache)", replay)
             else:
-                ctx.violation("warm-cold-outcome-differs-" + "-".join(str(v) for v in (out[:2] + ref[:2])),
+                ctx.violation("warm-cold-outcome-differs-" + "-".join(str(v) for v in (out[:1] + ref[:2])),
                               "worker with a cache and cache-less reference answer differently", replay)
         # a served output carries the call of the stream the cursor belongs to, and that call was minted for the presenter
         if out[0] == 4 and cur[0] == "tok":
@@ -399,7 +404,7 @@ class Driver:
             r = rng.random()
             if not W.calls or r < 0.22:
                 start = 999 if rng.random() < 0.06 else rng.randrange(0, 5)
-                W.init(rng.randrange(nw), rng.choice(IDENTS), rng.randrange(3), rng.randrange(1, 9), start)
+                W.init(rng.randrange(nw), rng.choice(IDENTS), rng.randrange(4), rng.randrange(1, 9), start)
                 self.ctx.count("impl_runs")
                 self.arm("init")
             elif r < 0.34:
@@ -432,7 +437,7 @@ class Driver:
                 elif q < 0.17:
                     call = ("tok", rng.choice(W.calls))
                 if rng.random() < 0.10:
-                    m = rng.randrange(3)
+                    m = rng.randrange(4)
                 x = 0 if rng.random() < 0.04 else rng.randrange(1, 9)
                 self.check_cont(W, rng.randrange(nw), ident, m, cur, call, x)
 
@@ -475,6 +480,17 @@ class Driver:
             self.check_cont(W, 0, A, 2, ("tok", W.curs[-1]), ("tok", ct), 5)          # /ez declares the type: both serve
             W.init(0, A, 1, 0, 1)
             self.check_cont(W, 1, A, 0, ("tok", W.curs[-1]), ("tok", W.calls[1]), 5)  # ey stream (no call state) at /ex
+        elif which == "falsy-call-state":         # a call state that is falsy but not None, on the /init worker and on a cold one
+            W.init(0, A, 3, 7, 3)
+            ct = W.calls[0]
+            self.check_cont(W, 0, A, 3, ("tok", W.curs[-1]), ("tok", ct), 5)          # hit: the live object of /init
+            self.check_cont(W, 1, A, 3, ("tok", W.curs[-1]), ("tok", ct), 5)          # miss: what the call token carries
+            self.check_cont(W, 1, A, 3, ("tok", W.curs[-1]), ("tok", ct), 6)          # hit on the entry rebuilt from the token
+            W.clear(0)
+            self.check_cont(W, 0, A, 3, ("tok", W.curs[-1]), ("tok", ct), 5)
+            self.check_cont(W, 0, A, 0, ("tok", W.curs[-1]), ("tok", ct), 5)          # at a method that does not declare WCall
+            W.init(1, None, 3, 2, 0)
+            self.check_cont(W, 0, None, 3, ("tok", W.curs[-1]), ("tok", W.calls[1]), 4)
         elif which == "lru":
             for i in range(4):
                 W.init(0, A, 0, i + 1, 0)
@@ -534,7 +550,7 @@ def run(ctx: Any) -> None:
                 "that was served from a cache hit or miss (not only rejections)")
     worlds: list[World] = []
     t0q = T0 * 4
-    for which in ("no-call-token", "ttl-honest", "type", "lru", "collide", "expiry-edges"):
+    for which in ("no-call-token", "ttl-honest", "type", "falsy-call-state", "lru", "collide", "expiry-edges"):
         caps = {"lru": [2, 0], "collide": [3, 1]}.get(which, [3, 2])
         worlds.append(D.directed(10, caps, t0q + rng.randrange(4), which))
         ctx.tally("scenario", which)
